@@ -793,7 +793,8 @@ class BosonicBackend(BaseBosonic):
             return np.array([res[:, 0] + 1j * res[:, 1]]).T
 
         res = select
-        self.circuit.post_select_heterodyne(mode, select)
+        # the circuit works with the quadrature values x + ip = 2 * alpha (cf. the factor 0.5 above)
+        self.circuit.post_select_heterodyne(mode, 2 * select)
         return np.array([[res]])
 
     def is_vacuum(self, tol=1e-10, **kwargs):
